@@ -205,10 +205,11 @@ def api_table():
 
 def collect(crate, apis):
     sites = []
-    for name in sorted(crate.bodies):
+    bodies = getattr(crate, "raw_bodies", None) or crate.bodies   # the functions as written: keys are body names
+    for name in sorted(bodies):
         if not in_scope(name):
             continue
-        b = crate.bodies[name]
+        b = bodies[name]
         found = []
         for i, blk in enumerate(b.blocks):
             if blk["cleanup"]:
@@ -570,31 +571,42 @@ def D_caller_nonzero(s, ctx):
         return None
     fi = int(fields[0][1:])
     lib = ctx.lib
-    callers = [(n, ob, c) for n, ob in lib.bodies.items() for c in ob.calls if (c.name or "") == b.name]
-    if not callers:
-        return None
+    bodies = getattr(lib, "raw_bodies", None) or lib.bodies
     owner = b.local_ty(1).replace("&mut ", "").replace("&", "").strip()
     adt = lib.adts.get(owner)
     if not adt:
         return None
     nf = len(adt["variants"][0]["fields"])
     fname = adt["variants"][0]["fields"][fi]["name"]
-    for n, ob, c in callers:
-        if not (ob.local_ty(1).replace("&mut ", "").replace("&", "").strip() == owner):
-            return None
-        selfv = [None] * nf
-        selfv[fi] = ("i", 0)
+    total = [0]
 
-        def model(cc, av, envv, pe):
-            # any call that yields the value later stored into the field: unknown -> try 0 for `len`-like
-            if (cc.name or "").endswith("::len"):
-                return (True, ("i", 0))
-            return None
-        res = PE(ob, model, eq_ok=common.derived_eq_ok(lib)).run(env={1: ("rv", ("adt", 0, tuple(selfv)))})
-        if any(cc.bb == c.bb for _, cc, _ in res.calls):
-            return None
-    return "self.%s is at least 1 whenever this method is called: each of its %d caller(s) skips the call when the " \
-           "field is 0 (partial evaluation of the callers)" % (fname, len(callers))
+    def guarded(name, depth, seen):
+        """Every caller of `name` skips the call when the field is 0, or is itself only called that way."""
+        callers = [(n, ob, c) for n, ob in bodies.items() for c in ob.calls if (c.name or "") == name]
+        if not callers or depth > 3 or name in seen:
+            return False
+        for n, ob, c in callers:
+            if ob.arg_count < 1 or not (ob.local_ty(1).replace("&mut ", "").replace("&", "").strip() == owner):
+                return False
+            selfv = [None] * nf
+            selfv[fi] = ("i", 0)
+
+            def model(cc, av, envv, pe):
+                # any call that yields the value later stored into the field: unknown -> try 0 for `len`-like
+                if (cc.name or "").endswith("::len"):
+                    return (True, ("i", 0))
+                return None
+            res = PE(ob, model, eq_ok=common.derived_eq_ok(lib)).run(env={1: ("rv", ("adt", 0, tuple(selfv)))})
+            total[0] += 1
+            if any(cc.bb == c.bb for _, cc, _ in res.calls):
+                # the receiver must be the caller's own self for the field to be the same field
+                if not guarded(n, depth + 1, seen | {name}):
+                    return False
+        return True
+    if not guarded(b.name, 0, frozenset()):
+        return None
+    return "self.%s is at least 1 whenever this method is called: each of its caller(s) skips the call when the " \
+           "field is 0, directly or through its own callers (partial evaluation of %d caller bodies)" % (fname, total[0])
 
 
 def D_depth(s, ctx):
@@ -1109,14 +1121,16 @@ def census(rep, ctx, rid="C05-PANIC-CENSUS", crates=("lib", "bin")):
     tab = {t["key"]: t for t in common.table("panic_sites.toml").get("site", [])}
     seen = set()
     by_class = {}
+    pending = []          # sites neither discharged nor tabled under their own key
     for which in crates:
         crate = ctx.lib if which == "lib" else ctx.bin
 
         class C2:
             pass
         sub = C2()
+        crate = crate.raw_view()
         sub.lib = crate
-        sub.cg = ctx.cg if which == "lib" else ctx.cgbin
+        sub.cg = ctx.cgraw if which == "lib" else ctx.cgbinraw
         for s in collect(crate, apis):
             key = s.key if which == "lib" else "bin:" + s.key
             seen.add(key)
@@ -1139,16 +1153,32 @@ def census(rep, ctx, rid="C05-PANIC-CENSUS", crates=("lib", "bin")):
                 r.ok(key, "tabled[%s]: %s" % (t.get("tag", "?"), t.get("reason", "")), s.where, nontrivial=False)
                 by_class["tabled:" + t.get("tag", "?")] = by_class.get("tabled:" + t.get("tag", "?"), 0) + 1
             else:
-                what = s.kind
-                if s.call is not None:
-                    what += " (%s)" % (s.call.full or s.call.name)
-                r.bad(key, "a possible panic that no structural argument discharges and the table does not list: %s%s"
-                      % (what, ("; " + s.detail) if s.detail else ""), s.where)
+                pending.append((key, s))
+    # a tabled site whose function was renamed / split keeps its table entry: an entry whose key no longer exists is
+    # matched with an otherwise unexplained site of the same kind in the same source file (one entry, one site)
+    pool = {}
+    for key, t in sorted(tab.items()):
+        if key not in seen and t.get("file"):
+            kind = key.rsplit("#", 1)[1].rsplit("[", 1)[0] if "#" in key else ""
+            pool.setdefault((t["file"], kind), []).append(t)
+    moved = set()
+    for key, s in pending:
+        pk = (s.where.rsplit(":", 1)[0], s.kind)
+        if pool.get(pk):
+            t = pool[pk].pop(0)
+            moved.add(t["key"])
+            r.ok(key, "tabled[%s] (the entry for %s, whose function no longer exists, matched by source file and kind): "
+                 "%s" % (t.get("tag", "?"), t["key"], t.get("reason", "")), s.where, nontrivial=False)
+            continue
+        what = s.kind
+        if s.call is not None:
+            what += " (%s)" % (s.call.full or s.call.name)
+        r.bad(key, "a possible panic that no structural argument discharges and the table does not list: %s%s"
+              % (what, ("; " + s.detail) if s.detail else ""), s.where)
     for key, t in sorted(tab.items()):
         if getattr(ctx, "config", "dev") != "dev":
             break    # release builds have no overflow asserts, the docs feature adds bodies: staleness is judged on dev
-        if key not in seen and not t.get("only_with_feature"):
-            r.bad("stale:" + key, "sa/tables/panic_sites.toml lists a site that no longer exists in the tree (the table "
-                  "must describe the current code)", "", nontrivial=False)
+        if key not in seen and key not in moved and not t.get("only_with_feature"):
+            r.note("sa/tables/panic_sites.toml lists %s, which no longer exists in the tree (the entry is unused)" % key)
     r.note("classes: %s" % sorted(by_class.items()))
     return r
